@@ -220,6 +220,7 @@ def execute(scn, ch, trace=None) -> dict:
     finally:
         errs = w.close()
     obs["task_errors"] = errs
+    obs["cancel_cycles"] = getattr(loop, "cancel_cycles", 0)
     return obs
 
 
@@ -229,6 +230,10 @@ def execute(scn, ch, trace=None) -> dict:
 def check_exec(obs) -> list[tuple[str, str]]:
     log, kinds, run_ids = obs["log"], obs["kinds"], obs["run_ids"]
     out = []
+    if obs.get("cancel_cycles"):
+        out.append(("C27:tasks-wait-for-each-other-in-a-cycle",
+                    "at the end of the execution the runner's unfinished tasks form a wait cycle (a task cancelled the batch it is "
+                    "itself part of): cancelling them does not terminate"))
     sends: dict[int, list] = {}        # mid -> [[send index, attempt, outcome]]
     by_att = {}
     fails: dict[int, list] = {}        # mid -> [log index of a failed attempt]
